@@ -98,6 +98,9 @@ class Fragment(AbstractApplication):
         frag_offset = 0
         while frag_offset < len(payload_data):
             fctr = BundleContainer()
+            if 'receive' in ctr.actions:
+                # fragments of a received bundle are not locally created
+                fctr.actions['receive'] = ctr.actions['receive']
             fctr.bundle.primary = ctr.bundle.primary.copy()
             fctr.bundle.primary.bundle_flags |= PrimaryBlock.Flag.IS_FRAGMENT
             fctr.bundle.primary.fragment_offset = frag_offset
